@@ -310,6 +310,15 @@ def run_snr(key):
     got = sx.get_snr(X3, N3, axis=axis)
     if not same_value(got, np.full(np.shape(got), target), 1e-9):
         return viol(f'get_snr after set_snr(inplace=False) = {np.asarray(got).tolist()}')
+    # the current SNR handed over by the caller (as documented) gives the same result
+    try:
+        cur = sx.get_snr(X, N0, axis=axis, keepdims=True)
+        X5, N5 = sx.set_snr(X, N0.copy(), target, current_snr=cur, axis=axis, inplace=False)
+    except Exception as e:  # noqa
+        return viol(f'set_snr(current_snr=...) raised {e!r}')
+    got = sx.get_snr(X5, N5, axis=axis)
+    if not same_value(got, np.full(np.shape(got), target), 1e-9):
+        return viol(f'get_snr after set_snr(current_snr=get_snr(...)) = {np.asarray(got).tolist()} (requested {target})')
     # target and noise of different sizes along the reduced axes (noise longer than the target, more channels)
     if axis is None or axis == -1 or axis == len(shape) - 1:
         Nl = signals(seed, 'generic', tuple(shape[:-1]) + (3 * shape[-1] + 1,), 'snrNlong') * 2
